@@ -1,6 +1,6 @@
 """C13 -- the assembler emits exactly the encoding each mnemonic and operand list denotes.
 C14 shares the machinery (run with --prop C14 semantics through props/c14.py)."""
-import json, traceback
+import json, traceback, re
 from z3 import (BitVec, BitVecVal, BoolVal, Int, Int2BV, And, Or, Not, If, ULT, ULE, UGE, Extract, SignExt, ZeroExt, simplify, is_true)
 import common, mirsym, asmcheck, obl, spec
 from mirsym import V, Agg, Enum, Opaque, Str, Closure
@@ -82,8 +82,20 @@ def literal_part(rep, cands, timeout):
     mir, key = common.load_mir('std'); tt = common.type_table(); pr = obl.Prover(timeout, common.seed())
     N = Int('N'); base = [10]
     def stubs(eng):
-        eng.add_stub(r'from_str_radix$', lambda e, st, fr, callee, args, R: R(Enum(If(N < 2 ** 64, BitVecVal(0, 64), BitVecVal(1, 64)), {0: [V(Int2BV(N, 64), 'u64')], 1: [Opaque('ParseIntError')]}, 'Result')))
-        eng.add_stub(r'<impl str>::parse$', lambda e, st, fr, callee, args, R: R(Enum(If(N < 2 ** 63, BitVecVal(0, 64), BitVecVal(1, 64)), {0: [V(Int2BV(N, 64), 'i64')], 1: [Opaque('ParseIntError')]}, 'Result')))
+        # the target type is read from the callee's instantiation (parse::<T> / <impl T>::from_str_radix): Ok(N) iff N fits T (the literal has no sign
+        # of its own: the grammar consumes it before the digits)
+        def fits(callee, pat):
+            m_ = re.search(pat, callee)
+            if not m_ or m_.group(1) not in mirsym.INT_TYPES: raise mirsym.Unsupported(f'numeric parse into an unknown type: {callee}')
+            ty = m_.group(1); w, sg = mirsym.INT_TYPES[ty]
+            return ty, w, 2 ** (w - 1 if sg else w)
+        def parse_stub(pat):
+            def h(e, st, fr, callee, args, R):
+                ty, w, lim = fits(callee, pat)
+                return R(Enum(If(N < lim, BitVecVal(0, 64), BitVecVal(1, 64)), {0: [V(Int2BV(N, w), ty)], 1: [Opaque('ParseIntError')]}, 'Result'))
+            return h
+        eng.add_stub(r'from_str_radix$', parse_stub(r'<impl (\w+)>::from_str_radix'))
+        eng.add_stub(r'<impl str>::parse$', parse_stub(r'::parse::<(\w+)>'))
         # length of the digit string: any L >= 1 with N < base^L (leading zeros allowed), base from the closure being checked
         def strlen(e, st, fr, callee, args, R):
             L = Int('L'); b = base[0]
@@ -105,6 +117,8 @@ def literal_part(rep, cands, timeout):
         try: ps = run(fname, args, pre)
         except mirsym.Unsupported as e:
             pr.out['errors'].append(f'{what}: {e}'); return
+        except Exception as e:        # the closure numbering / shapes of asm_parser::integer changed: not encodable as written (exit 2), the native corpus still runs
+            pr.out['errors'].append(f'{what}: the closure {fname} no longer has the expected shape ({type(e).__name__}: {e})'); return
         for p in ps:
             pc_ = list(p.st.pc)
             if p.kind != 'return':
@@ -155,6 +169,12 @@ def native_texts(rep, cands):
                 if dg != 'f': T.append(f'mov r0, {sg}{dg * nd}'); T.append(f'lddw r0, {sg}{dg * nd}'); T.append(f'ja {sg}{dg * nd}'); T.append(f'mov r{dg * nd}, 1'); T.append(f'ldxw r1, [r2{sg or "+"}{dg * nd}]')
                 T.append(f'mov r0, {sg}0x{dg * nd}'); T.append(f'lddw r0, {sg}0x{dg * nd}'); T.append(f'stw [r1{sg or "+"}0x{dg * nd}], 1')
     T += ['mov r0, -9223372036854775808', 'lddw r0, -9223372036854775808', 'mov r0, -0x8000000000000000', 'lddw r0, -0x8000000000000000', 'ja -9223372036854775808', 'ldxw r1, [r2-9223372036854775808]', 'mov r-1, 1', 'mov r+1, 1']
+    # boundary magnitudes in every operand position, both radices, every sign (sign application / narrowing overflow at 2^15, 2^16, 2^31, 2^32, 2^63, 2^64)
+    for M in sorted({2 ** k + dlt for k in (15, 16, 31, 32, 63, 64) for dlt in (-1, 0, 1)}):
+        for lit in (str(M), hex(M)):
+            for sg in ('', '-', '+'):
+                T += [f'mov r0, {sg}{lit}', f'lddw r0, {sg}{lit}', f'ja {sg}{lit}', f'jeq r1, 2, {sg}{lit}', f'jeq r1, {sg}{lit}, +1', f'call {sg}{lit}', f'ldabsw {sg}{lit}', f'ldindw r1, {sg}{lit}',
+                      f'ldxw r1, [r2{sg or "+"}{lit}]', f'stw [r1{sg or "+"}{lit}], 1', f'stw [r1+1], {sg}{lit}', f'stxw [r1{sg or "+"}{lit}], r2', f'be{lit} r1', f'mov r{lit}, 1']
     shapes = ['mov r1, 2', 'ldxw r1, [r2+4]', 'stw [r1+2], 3', 'stxw [r1-2], r3', 'jeq r1, 2, +3', 'lddw r1, 0x1122334455667788', 'be16 r1', 'call 3', 'ja +1', 'ldabsw 4', 'ldindw r1, 4', 'neg r1', 'exit']
     for t in shapes:
         for i in range(len(t) + 1): T.append(t[:i]); T.append(t[:i] + '\n' + t); T.append(t[:i] + ',')
